@@ -522,6 +522,9 @@ func parseAttributes(data []byte) ([]Attribute, error) {
 
 		offset += attrLen
 	}
+	if offset != len(data) {
+		return nil, fmt.Errorf("trailing byte after last attribute")
+	}
 
 	return attrs, nil
 }
